@@ -263,3 +263,72 @@ Definition mkecase (hs : list (N * bool)) (chain : list bool) (with_ack : bool) 
 
 Definition oracle_and_agree (c : acase) : bool := oracle c && agree c.
 Definition eoracle_and_eagree (c : ecase) : bool := eoracle c && eagree c.
+
+(** ** Forced window: socket A parked at the entry of middleware g while socket B is admitted (or
+       refused) and namespace-wide broadcasts (ticks 1, 2, 3) are sent before B, after B, after A. *)
+Definition wcase :=
+  (list (N * N) * list (N * N) * N * (N * N) * (list N * list N) * (view * view * view * view)
+   * (list N * list N) * bool)%type.
+
+Definition mkwcase (ca cb : list (N * N)) (g ra rb : N) (recva recvb : list N)
+  (mida midb enda endb : view) (callsa callsb : list N) (parked : bool) : wcase :=
+  (ca, cb, g, (ra, rb), (recva, recvb), (mida, midb, enda, endb), (callsa, callsb), parked).
+
+Definition sid_a : sid := 7%N.
+Definition sid_b : sid := 8%N.
+
+Definition resp_code (x : sid) (s : server) : N :=
+  match packets x (trace s) with
+  | [PktConnect y] => if N.eqb x y then 0%N else 2%N
+  | [PktConnectError _] => 1%N
+  | _ => 2%N
+  end.
+
+Definition tick_hits (x : sid) (ticks : list (N * server)) : list N :=
+  flat_map (fun t => if reach_all (snd t) x then [fst t] else []) ticks.
+
+Definition wpredict (ca cb : list (N * N)) (g : N)
+  : (N * N) * (list N * list N) * (view * view * view * view) * (list N * list N) :=
+  let k := length ca in
+  let ta := new_adm sid_a 9%N (mk_chain 0 ca) in
+  let tb := new_adm sid_b 10%N (mk_chain 0 cb) in
+  let st1 := run (repeat (0%nat, false) (N.to_nat g)) (background, [ta; tb]) in
+  let st2 := run (repeat (1%nat, false) (k + 9) ++ [(1%nat, true)]) st1 in
+  let st3 := run (repeat (0%nat, false) (k + 9) ++ [(0%nat, true)]) st2 in
+  let ticks := [(1%N, fst st1); (2%N, fst st2); (3%N, fst st3)] in
+  ((resp_code sid_a (fst st3), resp_code sid_b (fst st3)),
+   (tick_hits sid_a ticks, tick_hits sid_b ticks),
+   (view_of k (fst st2) sid_a, view_of k (fst st2) sid_b,
+    view_of k (fst st3) sid_a, view_of k (fst st3) sid_b),
+   (map N.of_nat (mw_calls sid_a (trace (fst st3))), map N.of_nat (mw_calls sid_b (trace (fst st3))))).
+
+Definition wagree (c : wcase) : bool :=
+  let '(ca, cb, g, (ra, rb), (recva, recvb), (mida, midb, enda, endb), (callsa, callsb), parked) := c in
+  let '((pra, prb), (preca, precb), (pma, pmb, pea, peb), (pca, pcb)) := wpredict ca cb g in
+  parked
+  && N.eqb pra ra && N.eqb prb rb
+  && list_eqb N.eqb preca recva && list_eqb N.eqb precb recvb
+  && view_eqb pma mida && view_eqb pmb midb && view_eqb pea enda && view_eqb peb endb
+  && list_eqb N.eqb pca callsa && list_eqb N.eqb pcb callsb.
+
+Definition expected_calls (chain : list (N * N)) : list N :=
+  match first_reject 0 chain with
+  | None => map N.of_nat (seq 0 (length chain))
+  | Some (j, _) => map N.of_nat (seq 0 (S (N.to_nat j)))
+  end.
+
+(** Property on the observation: a broadcast reaches a socket only once its whole chain accepted -
+    never while it is parked in a middleware, never after a rejection - and does reach it then. *)
+Definition woracle (c : wcase) : bool :=
+  let '(ca, cb, g, (ra, rb), (recva, recvb), (mida, midb, enda, endb), (callsa, callsb), parked) := c in
+  let acc_a := match first_reject 0 ca with None => true | Some _ => false end in
+  let acc_b := match first_reject 0 cb with None => true | Some _ => false end in
+  parked
+  && not_admitted mida
+  && list_eqb N.eqb callsa (expected_calls ca) && list_eqb N.eqb callsb (expected_calls cb)
+  && (if acc_a then N.eqb ra 0 && list_eqb N.eqb recva [3%N] && admitted enda
+      else N.eqb ra 1 && match recva with [] => true | _ => false end && nothing enda)
+  && (if acc_b then N.eqb rb 0 && list_eqb N.eqb recvb [2%N; 3%N] && admitted midb && admitted endb
+      else N.eqb rb 1 && match recvb with [] => true | _ => false end && nothing midb && nothing endb).
+
+Definition woracle_and_wagree (c : wcase) : bool := woracle c && wagree c.
